@@ -44,6 +44,8 @@ def main():
             cmd = [os.path.join(VERIF, "check"), a.property, "--tier", a.tier]
             for o in (m.get("check_only", []) + a.check_only):
                 cmd += ["--only", o]
+            if m.get("verus_only"):
+                cmd += ["--verus-only"]
             p = subprocess.run(cmd, capture_output=True, text=True, cwd=VERIF)
         finally:
             open(path, "w").write(orig)
